@@ -7,7 +7,7 @@ from . import c09
 ID = "C11"
 LIMIT = 30.0
 RULE = ("all 4-vertex complexes and sampled 5-vertex complexes (any topology incl. non-manifold / unoriented / unused vertices) plus "
-        "structured families with flips, rotations, relabelling, unused vertices, integer-valued and float32 coordinates; it in 0..3 "
+        "structured families (two of them containing a two-triangle pillow, finding F25) with flips, rotations, relabelling, unused vertices, integer-valued and float32 coordinates; it in 0..3 "
         "(size-capped). distinct = hash of (v,t,it); non-trivial = it >= 1 and mesh not (closed and manifold and oriented), or it >= 2")
 TRUSTED = ["sparse.triu(format=csr) row-major order, sparse fancy indexing adjtriu[rows, cols] (modelled by sorted edge list lookup)"]
 ASSUMPTIONS = []
@@ -27,6 +27,11 @@ def generate(rng, tier):
         cases.append({"family": "complex4", "v": c09._PTS5[:4], "t": c["t"], "it": 1})
     for c in c09.small_complexes(5, rng, 150 if tier == "quick" else 3000):
         cases.append({"family": "complex5", "v": c09._PTS5, "t": c["t"], "it": rng.choice([1, 1, 2])})
+    # two triangles on the same three vertices (a "pillow", two faces glued along all three edges): the index-based subdivision
+    # identifies the midpoint edges of the two faces (finding F25)
+    pil = ([[5.0, 0.0, 0.0], [6.0, 0.2, 0.0], [5.1, 1.0, 0.3]], [[0, 1, 2], [0, 2, 1]])
+    for name, (v, t) in (("pillow_tetra", gm.union([gm.tetra_surface(), pil])), ("pillow_grid", gm.union([pil, gm.grid(2, 1)]))):
+        cases.append({"family": name, "v": v, "t": t, "it": 1, "vdtype": "float64"})
     n = 90 if tier == "quick" else 900
     for i in range(n):
         fam = gm.TRIA_FAMILIES[i % len(gm.TRIA_FAMILIES)]
@@ -170,11 +175,19 @@ def oracle(case, out):
         bad("volume_preserved", f"{vol0} vs {vol1}")
     if np.abs(c0 - c1).max() > max(tol, 1e-9) * (1 + np.abs(c0).max() + a0) * 10:
         bad("centroid_preserved", f"{c0} vs {c1}")
-    for key in ("euler", "closed", "manifold", "oriented"):
-        if tp0[key] != tp1[key]:
-            bad(f"{key}_preserved", f"{tp0[key]} -> {tp1[key]}")
+    sets = [frozenset(r) for r in t0]
+    wc = "two_triangles_same_vertex_set" if len(set(sets)) < len(sets) else None
+    changed = [f"{key} {tp0[key]} -> {tp1[key]}" for key in ("euler", "closed", "manifold", "oriented") if tp0[key] != tp1[key]]
     if out["pre_loops"] != out["post_loops"]:
-        bad("boundary_loop_count_preserved", f"{out['pre_loops']} -> {out['post_loops']}")
+        changed.append(f"boundary loops {out['pre_loops']} -> {out['post_loops']}")
+    if wc and changed:
+        bad("topology_unchanged_by_refinement", "; ".join(changed), wc)
+    else:
+        for key in ("euler", "closed", "manifold", "oriented"):
+            if tp0[key] != tp1[key]:
+                bad(f"{key}_preserved", f"{tp0[key]} -> {tp1[key]}")
+        if out["pre_loops"] != out["post_loops"]:
+            bad("boundary_loop_count_preserved", f"{out['pre_loops']} -> {out['post_loops']}")
     if not out["steps_equal"]:
         bad("refine_it_equals_it_single_steps", "differs")
     if not out["adj_fresh"]:
